@@ -32,6 +32,7 @@ func main() {
 	var evals, exact int64
 	classes := map[string]int64{}
 	var samples []any
+	seenSample := map[string]bool{}
 	var hashes []uint64
 	exhaustive := (*bool)(nil)
 	violations := 0
@@ -57,7 +58,13 @@ func main() {
 			classes[k] += v
 		}
 		if len(samples) < 60 {
-			samples = append(samples, p.Samples...)
+			for _, sm := range p.Samples {
+				b, _ := json.Marshal(sm)
+				if !seenSample[string(b)] { // the side processes report the same fixed samples as the main one
+					seenSample[string(b)] = true
+					samples = append(samples, sm)
+				}
+			}
 		}
 		if p.Exhaustive != nil {
 			if exhaustive == nil || !*p.Exhaustive {
